@@ -79,6 +79,12 @@ BLOCKS = {
                              "ph": r.randint(-1, 1) if ints else r.randint(-64, 64) / 64.0},
         make=lambda a: lk.BeamSplitter(a["ratio"], phase=a["ph"]), kw=lambda a: {},
         term=lambda a: "BeamSplitter %s %s" % (rlit(a["ratio"]), rlit(a["ph"])), n=4),
+    "BeamSplitterT": dict(     # explicit power transmission t, boundary values included
+        gen=lambda r, ints: {"ratio": r.choice([0, 1]) if ints else r.randint(0, 64) / 64.0,
+                             "t": r.choice([0, 1, 0.0]) if (ints or r.random() < 0.3) else r.randint(0, 64) / 64.0,
+                             "ph": r.randint(-1, 1) if ints else r.randint(-64, 64) / 64.0},
+        make=lambda a: lk.BeamSplitter(a["ratio"], t=a["t"], phase=a["ph"]), kw=lambda a: {},
+        term=lambda a: "BeamSplitterT %s %s %s" % (rlit(a["ratio"]), rlit(a["t"]), rlit(a["ph"])), n=4),
     "Splitter1x2": dict(
         gen=lambda r, ints: {}, make=lambda a: lk.Splitter1x2(), kw=lambda a: {},
         term=lambda a: "Splitter1x2", n=3),
@@ -90,7 +96,7 @@ BLOCKS = {
 }
 
 UNFOLD = ("cbv [Waveguide PhaseShifter TH_PhaseShifter Attenuator LinearAttenuator PerfectMirror PushPull "
-          "Mirror BeamSplitter Splitter1x2 PolRot twoport wg_t att_amp bs_t bs_c cscale cmulc cis C0 fst snd]")
+          "Mirror BeamSplitter BeamSplitterT Splitter1x2 PolRot twoport wg_t att_amp bs_t bs_tt bs_c cscale cmulc cis C0 fst snd]")
 
 SAMPLE_ASSUMPTIONS = {}
 
